@@ -1,6 +1,7 @@
 import Nstd.Common.Basic
 import Nstd.Buffer.Model
 import Nstd.Buffer.Raw
+import Nstd.Buffer.Client
 /-
   Line protocol of the Buffer area.  One op per line; after every op the driver prints
   the observation line for the whole state:
@@ -132,6 +133,95 @@ def stepLine (st : State) (ws : List String) : State × String :=
       else stdLine st k ws
     | _ => stdLine st k ws
 
+/-! ### the backlog-client stream (harness/buffer_backlog.cpp: the real `ClientImpl::write` and write-readiness handler of
+    Server.cpp with `send` scripted).  Variables 0 and 1 are the `_sendBuffer`s of two clients.
+      `cw c <hex> <outcome>`  – `client c .write(data, size)`;   `cr c <outcome>` – one write-readiness event of client `c`
+    `<outcome>` = what `send` answers should it be called: `wb`, `err` or the number of bytes it accepts.
+    Observation: `<result> | <client 0> | <client 1>`, a client = `size bytes owned term cap=<_capacity> hr=<head-room|-> <kind>`
+    or `dead` once it was closed. -/
+
+structure DState where
+  st : State
+  dead : List Bool
+
+def dinit : DState := { st := init0, dead := [false, false] }
+
+def parseOutcome (t : String) : Option Outcome :=
+  if t == "wb" then some .wb else if t == "err" then some .err else t.toNat?.map .cnt
+
+def runBOps (st : State) (k : Nat) (c : Nat) : List BOp → Option State
+  | [] => some st
+  | b :: bs => do let st ← step st k (b.op c); runBOps st k c bs
+
+def clientObs (d : DState) (c : Nat) : String :=
+  if d.dead.getD c true then "dead" else
+  match d.st.getBuf c with
+  | none => "bad"
+  | some b =>
+    obsVar d.st c ++ s!" cap={b.cap} " ++
+      (match b.store with
+        | .own _ _ => s!"hr={b.s} own"
+        | .att _ => "hr=- att"
+        | .dflt x => if x == c then "hr=- dflt" else "hr=- stale")
+
+def sendStr (offered : Nat) (o : Outcome) : Option Nat → String
+  | none => "send=-"
+  | some k => match o with
+    | .wb => s!"send={offered}>wb"
+    | .err => s!"send={offered}>err"
+    | .cnt _ => s!"send={offered}>{k}"
+
+def clientLine (d : DState) (k : Nat) (ws : List String) : DState × String :=
+  let fin (d : DState) (res : String) := (d, res ++ " | " ++ clientObs d 0 ++ " | " ++ clientObs d 1)
+  match ws with
+  | ["cw", c, hex, o] =>
+    match c.toNat?, fromHex hex, parseOutcome o with
+    | some c, some data, some o =>
+      if c ≥ 2 then (d, "bad-op") else
+      if d.dead.getD c true then fin d "dead" else
+      match d.st.getBuf c with
+      | none => (d, "bad-op")
+      | some b =>
+        let (ops, closing, sent) := writeOps b.size data o
+        match runBOps d.st k c ops with
+        | none => (dinit, "FAULT")
+        | some st' =>
+          let d' : DState := { st := st', dead := if closing then d.dead.set c true else d.dead }
+          let post := if closing then 0 else (st'.getBuf c).map Buf.size |>.getD 0
+          fin d' s!"ret={if closing then 0 else 1} post={post} {sendStr data.length o sent}"
+    | _, _, _ => (d, "bad-op")
+  | ["cr", c, o] =>
+    match c.toNat?, parseOutcome o with
+    | some c, some o =>
+      if c ≥ 2 then (d, "bad-op") else
+      if d.dead.getD c true then fin d "dead" else
+      match d.st.getBuf c with
+      | none => (d, "bad-op")
+      | some b =>
+        -- the harness delivers the event only to a client that is registered for write-readiness: backlog not empty
+        if b.size = 0 then fin d "idle" else
+        let (ops, closed, sent, onWrite) := readyOps b.size o
+        match runBOps d.st k c ops with
+        | none => (dinit, "FAULT")
+        | some st' =>
+          let d' : DState := { st := st', dead := if closed then d.dead.set c true else d.dead }
+          fin d' s!"cb={if closed then "C" else if onWrite then "W" else "-"} {sendStr b.size o sent}"
+    | _, _ => (d, "bad-op")
+  | _ => (d, "bad-op")
+
+def dstepLine (d : DState) (ws : List String) : DState × String :=
+  match ws with
+  | ["reset"] => (dinit, obs init0)
+  | "cw" :: _ | "cr" :: _ =>
+    -- an optional last token `cap=<n>`: the capacity the implementation reports for the client's Buffer after the op
+    let (ws, k) := match ws.getLast? with
+      | some t => if t.startsWith "cap=" then (ws.dropLast, ((t.drop 4).toNat?).getD 0) else (ws, 0)
+      | none => (ws, 0)
+    clientLine d k ws
+  | _ =>
+    let (st', out) := stepLine d.st ws
+    ({ d with st := st' }, out)
+
 end Nstd.Buffer
 
-def main : IO Unit := Nstd.Common.ioLoop Nstd.Buffer.init0 Nstd.Buffer.stepLine
+def main : IO Unit := Nstd.Common.ioLoop Nstd.Buffer.dinit Nstd.Buffer.dstepLine
